@@ -133,6 +133,14 @@ func (s *svc) Echo(name string) string {
 	return name
 }
 
+// Subscription is an ordinary method whose wire name, t_subscription, happens to end in the
+// suffix the server uses for subscription notifications.
+func (s *svc) Subscription(name string) string {
+	s.w.enter(name)
+	defer s.w.leave(name)
+	return name
+}
+
 func (s *svc) Fail(name string) error {
 	s.w.enter(name)
 	defer s.w.leave(name)
